@@ -360,10 +360,9 @@ class Lib:
             a, stp = to_z3(o.start), to_z3(o.step)
             return SRange(SV(z3.simplify(a + s0 * stp)), SV(z3.simplify(a + e0 * stp)), I.binop("*", o.step, st))
         if isinstance(o, SSeq) and isinstance(idx, LibObj) and idx.kind == "slice":
-            s0, e0, st = self.slice_indices_sym(I, idx, o.length, node)
-            idxs = SRange(SV(s0), SV(e0), st)
-            ln = self.range_len(I, idxs)
-            return SSeq(ln, lambda i: o.getter(SV(z3.simplify(s0 + to_z3(i) * st))), o.kind)
+            s0, st, ln = self.numpy.slice_bounds(I, idx, o.length, node)      # handles symbolic start/stop
+            from .ndarray import as_dim
+            return SSeq(as_dim(ln), lambda i: o.getter(SV(z3.simplify(s0 + to_z3(i) * st))), o.kind)
         if isinstance(o, SRange):
             if isinstance(idx, LibObj):
                 raise Unsupported("slice of symbolic range")
@@ -462,6 +461,9 @@ class Lib:
             for cnd in gen.ifs:
                 r = I.truth_sym(I.eval(cnd, f0), cnd)
                 if r is not True:
+                    if kind == "gen":
+                        # lazily consumed search `next(x for x in seq if cond(x))`: kept as a find-first object
+                        return LibObj("findgen", e=e, frame=fr, src=src)
                     raise Unsupported("filtered comprehension over a sequence of symbolic length")
         if isinstance(src, SRange):
             length = self.range_len(I, src)
@@ -1119,6 +1121,8 @@ class Lib:
             if len(a) > 1:
                 return a[1]
             I.raise_exc(StopIteration)
+        if isinstance(it, LibObj) and it.kind == "findgen":
+            return self.find_first(I, it, a, n)
         if isinstance(it, (SSeq, SRange)):
             # first element of a fresh iterator over a sequence (single next() on iter(seq))
             ln = self.range_len(I, it) if isinstance(it, SRange) else it.length
@@ -1128,6 +1132,49 @@ class Lib:
                 return a[1]
             I.raise_exc(StopIteration)
         raise Unsupported(f"next() on {type(it).__name__}")
+
+    def find_first(self, I, fg, a, n):
+        """next(elt for x in seq if cond(x)) over a sequence of symbolic length: returns elt(x*) for SOME index x*
+        with cond (the first-match minimality is dropped: a sound weakening for proving postconditions).  The
+        search fails (StopIteration / default) only if no element satisfies the filter; to show that a match
+        exists the last element is tried as an explicit witness."""
+        e, fr, src = fg.fields["e"], fg.fields["frame"], fg.fields["src"]
+        gen = e.generators[0]
+        if isinstance(src, SRange):
+            length = self.range_len(I, src)
+            base = lambda i: I.binop("+", src.start, I.binop("*", i, src.step))    # noqa: E731
+        else:
+            length = src.length
+            base = src.getter
+        I.ctx.note_assumption("next() over a filtered generator returns SOME matching element (first-match minimality not used)")
+
+        def cond_at(i):
+            f2 = Frame(fr.func, parent=fr.parent)
+            f2.locals.update(fr.locals)
+            I.assign(gen.target, base(i), f2)
+            acc = []
+            for cnd in gen.ifs:
+                acc.append(I.sym_bool(I.eval(cnd, f2)))
+            return f2, (z3.And(*acc) if len(acc) > 1 else acc[0])
+        ln = to_z3(length)
+        last = z3.simplify(ln - 1)
+        exists = False
+        if I.ctx.entails(ln > 0):
+            _, c_last = cond_at(SV(last))
+            exists = I.ctx.entails(c_last)
+        if not exists:
+            j = z3.Int(I.ctx.fresh_name("ff_j"))
+            _, cj = cond_at(SV(j))
+            some = z3.Exists([j], z3.And(j >= 0, j < ln, cj))
+            if not I.ctx.branch(some):
+                if len(a) > 1:
+                    return a[1]
+                I.raise_exc(StopIteration)
+        k = z3.Int(I.ctx.fresh_name("ff_k"))
+        I.ctx.assume(z3.And(k >= 0, k < ln))
+        f2, ck = cond_at(SV(k))
+        I.ctx.assume(ck)
+        return I.eval(e.elt, f2)
 
     def b_iter(self, I, a, k, n):
         from .interp import LazyGen
